@@ -600,7 +600,7 @@ def run(ctx):
     col.require('native_failures', 10)
     if ctx.shard == 0:
         systematic(col, rng)
-    for i in range(ctx.n(6000, 60000)):
+    for i in range(ctx.n(15000, 80000)):
         build = target_recipe(rng)
         e = gen_expr(rng, build, want_fail=rng.random() < 0.4)
         check_expr(col, e, build, 'random')
